@@ -21,16 +21,20 @@ from harness.lib import common, cppbuild, emb
 from harness.corr import c06_gen as G
 from harness.corr import c06_int as I
 from harness.corr import c06_read as R
+from harness.corr import c06_deps as D
+from harness.corr import c06_srt as S
 
 # (multiline, comments); single-line with comments is NOT documented as re-readable: a `#`
 # comment swallows the rest of the line (it is still written and parsed, never alarmed on).
 LAYOUTS_RR = [(0, 0), (1, 0), (1, 1)]
 LAYOUT_NOT_RR = (0, 1)
 BASES = (10, 16, 2)
+PARTIAL_OPTS = [(0, 0, 10, 0), (1, 1, 16, 1), (1, 0, 2, 0), (0, 1, 10, 1)]
 FINDING_SKIP_KEY = "skip-field-determines-layout-of-emitted-field"
 FINDING_ARRAY_KEY = "multiline-array-elements-not-comma-separated"
-FINDING_ENUM_KEY = "negative-signed-enum-in-wider-bits-container"
-FINDING_ANON_KEY = "skip-on-anonymous-bits-subfield-ignored"
+# fixed in /repo (f572d62, b3c9cb3): the pinned inputs stay in the run, nothing is routed to them
+FIXED_ENUM_KEY = "negative-signed-enum-in-wider-bits-container"
+FIXED_ANON_KEY = "skip-on-anonymous-bits-subfield-ignored"
 
 DRIVER_PRELUDE = r"""
 #include <cstdint>
@@ -95,18 +99,26 @@ static void RunOne(Make make, Dump dump, int multiline, int comments, int base, 
   auto v = make(b1.get(), n);
   bool ok = v.Ok();
   std::cout << "ok=" << ok;
-  if (!ok) { std::cout << "\n"; return; }
   ::emboss::TextOutputOptions o;
   o = o.Multiline(multiline != 0).WithComments(comments != 0).WithNumericBase(static_cast<uint8_t>(base))
        .WithDigitGrouping(grouping != 0);
   if (multiline) o = o.WithIndent("  ");
+  if (!ok) {
+    // allow_partial_output: "WriteToString() should never CHECK-fail"; readable atomic fields only
+    std::cout << " ptext=" << Hex(::emboss::WriteToString(v, o.WithAllowPartialOutput(true))) << "\n";
+    return;
+  }
   std::string text = have_text ? text_override : ::emboss::WriteToString(v, o);
+  if (!have_text) std::cout << " pa=" << (::emboss::WriteToString(v, o.WithAllowPartialOutput(true)) == text);
+  // the text is on stdout before the reader runs: a failed CHECK / sanitizer report in
+  // UpdateFromText still leaves it for the oracles
+  std::cout << " text=" << Hex(text) << std::flush;
   auto w = make(b2.get(), n);
   bool upd = ::emboss::UpdateFromText(w, text);
   std::string d1, d2;
   dump(v, "", &d1);
   dump(w, "", &d2);
-  std::cout << " upd=" << upd << " ok2=" << w.Ok() << " text=" << Hex(text) << " buf2="
+  std::cout << " upd=" << upd << " ok2=" << w.Ok() << " buf2="
             << Hex(std::string(reinterpret_cast<char *>(b2.get()), n)) << " d1=" << Hex(d1) << " d2=" << Hex(d2)
             << " same=" << (std::memcmp(b1.get(), bytes.data(), n) == 0) << "\n";
 }
@@ -237,7 +249,7 @@ def order_names(ir_struct):
     return [fields[int(i)]["name"]["name"]["text"] for i in ir_struct.get("fields_in_dependency_order", [])]
 
 
-def compare_tree(node, parsed, orders, where, problems, int_checks):
+def compare_tree(node, parsed, orders, where, problems, int_checks, partial=False):
     """node: expected (from the generator); parsed: from the real text."""
     kind = node[0]
     if kind == "scalar":
@@ -274,19 +286,30 @@ def compare_tree(node, parsed, orders, where, problems, int_checks):
         else:
             problems.append("%s: expected an array, got %s" % (where, parsed[0]))
             return
-        if [i for i, _ in got] != list(range(len(items))):
-            problems.append("%s: array indices %r, expected 0..%d" % (where, [i for i, _ in got][:20], len(items) - 1))
+        idxs = [i for i, _ in got]
+        if partial:
+            # allow_partial_output: unreadable elements are left out; what is there must be right
+            if idxs != sorted(set(idxs)) or any(i >= len(items) for i in idxs):
+                problems.append("%s: array indices %r in a partial text, array has %d elements" % (
+                    where, idxs[:20], len(items)))
+                return
+            for i, p in got:
+                compare_tree(items[i], p, orders, "%s[%d]" % (where, i), problems, int_checks, True)
+            return
+        if idxs != list(range(len(items))):
+            problems.append("%s: array indices %r, expected 0..%d" % (where, idxs[:20], len(items) - 1))
             return
         for (i, p), it in zip(got, items):
             compare_tree(it, p, orders, "%s[%d]" % (where, i), problems, int_checks)
         return
     if kind == "struct":
-        compare_struct(node[1], node[2] if len(node) > 2 else None, parsed, orders, where, problems, int_checks)
+        compare_struct(node[1], node[2] if len(node) > 2 else None, parsed, orders, where, problems, int_checks,
+                       partial)
         return
     raise AssertionError(kind)
 
 
-def compare_struct(tree, stname, parsed, orders, where, problems, int_checks):
+def compare_struct(tree, stname, parsed, orders, where, problems, int_checks, partial=False):
     real = [(n, x) for n, x in tree if x[0] != "comment"]
     if parsed[0] == "empty":
         got = []
@@ -302,7 +325,12 @@ def compare_struct(tree, stname, parsed, orders, where, problems, int_checks):
         pos = {n: i for i, n in enumerate(orders[stname])}
         want = sorted(want, key=lambda n: pos.get(n, 1 << 30))
     names = [n for n, _ in got]
-    if names != want:
+    if partial:
+        it = iter(want)
+        if not all(any(n == w for w in it) for n in names):
+            problems.append("%s: field names in a partial text %r are not a subsequence of %r" % (where, names, want))
+            return
+    elif names != want:
         missing = [n for n in want if n not in names]
         extra = [n for n in names if n not in want]
         problems.append("%s: field names in text %r, expected %r (missing %r, unexpected %r)" % (
@@ -310,7 +338,7 @@ def compare_struct(tree, stname, parsed, orders, where, problems, int_checks):
         return
     exp = dict(real)
     for n, p in got:
-        compare_tree(exp[n], p, orders, "%s.%s" % (where, n) if where else n, problems, int_checks)
+        compare_tree(exp[n], p, orders, "%s.%s" % (where, n) if where else n, problems, int_checks, partial)
 
 
 class NoWval(Exception):
@@ -334,6 +362,8 @@ def wval_tokens(node, parsed, orders):
             return ["f", I.hexs(parsed[1])]
         return ["i", sc.cpp_int_type(), str(v)]
     if kind == "comment":
+        if isinstance(node[1], bool):
+            return ["b", "1" if node[1] else "0"]
         return ["i", "i64", str(node[1])]
     if kind == "array":
         items = node[1]
@@ -386,13 +416,16 @@ def _attach(ft, node):
 
 
 def check_intended_order(st, names, problems, where):
-    """Property statement: fields are emitted after the fields they depend on."""
-    deps = G.intended_deps(st)
+    """Property statement: fields are emitted after the fields they depend on.  The dependency
+    relation is computed from the source text the generator wrote (condition / location / size /
+    `let` expression of every field), transitively through fields that are not in the text
+    themselves (read-only or skipped virtual fields) — never from the compiler's own ordering."""
+    deps = G.transitive_deps(st)
     seen = set()
     for n in names:
-        for d in deps.get(n, []):
+        for d in sorted(deps.get(n, ())):
             if d in names and d not in seen:
-                problems.append("%s: field %s is written before %s, which it depends on" % (where, n, d))
+                problems.append("ORDER: %s: field %s is written before %s, which it depends on" % (where, n, d))
         seen.add(n)
 
 
@@ -428,11 +461,12 @@ def prepare_module(mod):
                 orders[t["name"]["name"]["text"]] = order_names(t["structure"])
             walk(t.get("subtype", []))
     walk(d["module"][0]["type"])
-    return {"text": text, "header": header, "orders": orders}, None
+    return {"text": text, "header": header, "orders": orders, "dep_table": D.module_table(d)}, None
 
 
 def tops_of(mod):
-    return [t for t in mod.types if t.kind == "struct"]
+    """Structs driven as top-level views (structs with runtime parameters only as members)."""
+    return [t for t in mod.types if t.kind == "struct" and not t.params]
 
 
 def option_sets(tier, r):
@@ -445,6 +479,68 @@ def option_sets(tier, r):
 
 
 run_many_long = I.run_many_long
+
+
+def first_failing(binary, lines):
+    """One line of `lines` that makes the driver fail when run alone-ish (halving)."""
+    cand = list(lines)
+    last = None
+    while len(cand) > 1:
+        mid = len(cand) // 2
+        a = cppbuild.run(binary, "\n".join(cand[:mid]) + "\n", timeout=900)
+        if a.kind != "ok":
+            cand, last = cand[:mid], a
+        else:
+            cand = cand[mid:]
+    if not cand:
+        return None, last
+    one = cppbuild.run(binary, cand[0] + "\n", timeout=900)
+    return cand[0], (one if one.kind != "ok" else last)
+
+
+def isolate_crashes(binary, lines, res):
+    """A driver run over `lines` ended abnormally (sanitizer report, failed EMBOSS_CHECK, crash).
+    The lines are re-run struct by struct: structs that run cleanly are judged as usual, for each
+    of the others the failing line is located.  Returns ([answer or None per line],
+    [(failing line, RunResult)])."""
+    groups = {}
+    for i, ln in enumerate(lines):
+        groups.setdefault(ln.split(" ")[0], []).append(i)
+    keys = list(groups)
+    answers, crashes = [None] * len(lines), []
+    results = run_many_long([(binary, "\n".join(lines[i] for i in groups[k]) + "\n") for k in keys], workers=4)
+    for k, r in zip(keys, results):
+        idx = groups[k]
+        if r.kind == "ok":
+            out = r.out.split("\n")[:-1]
+            if len(out) == len(idx):
+                for i, a in zip(idx, out):
+                    answers[i] = a
+                continue
+        bad, one = first_failing(binary, [lines[i] for i in idx])
+        crashes.append((bad, one if one is not None else r))
+    if not crashes:
+        crashes.append((None, res))
+    return answers, crashes
+
+
+def crash_text_order(one, dep_table, st):
+    """The driver prints WriteToString's text before it calls UpdateFromText: when the reader
+    dies, the emission-order clause can still be judged on what was written."""
+    import re
+    m = re.search(r"text=([0-9a-f]*)", one.out or "")
+    if not m:
+        return None, []
+    text = I.unhex(m.group(1))
+    problems = []
+    try:
+        parsed, _ = parse_text(text)
+    except ParseError:
+        return text, ["text does not parse"]
+    if st is not None and parsed[0] == "struct":
+        check_intended_order(st, [n for n, _ in parsed[1]], problems, st.name)
+    D.check_text(dep_table, D.find_struct(dep_table, st.name if st is not None else None), parsed, "", problems)
+    return text, problems
 
 
 def line_fields(ln):
@@ -506,6 +602,42 @@ def judge_roundtrip(kv, built, d1, d2):
     return problems
 
 
+def judge_partial(prep, st, built, opt, trunc, line, stats):
+    """allow_partial_output (doc/cpp-reference.md) on the first `trunc` bytes of an Ok buffer: no
+    CHECK failure (the driver would have died), unreadable atomic fields are left out (mentioned
+    only in comments), and whatever is written is a field the full text has, with the value the
+    full buffer has, after the fields it depends on."""
+    kv = dict(x.split("=", 1) for x in line.split(" ") if "=" in x)
+    m, c, b, g = opt
+    stats["partial_cases"] = stats.get("partial_cases", 0) + 1
+    if kv.get("ok") == "1":
+        stats["partial_truncated_view_still_ok"] = stats.get("partial_truncated_view_still_ok", 0) + 1
+        return []
+    if "ptext" not in kv:
+        return ["PARTIAL: no text produced"]
+    text = I.unhex(kv["ptext"])
+    problems = []
+    if not c and "UNREADABLE" in text:
+        problems.append("PARTIAL: UNREADABLE mentioned although comments are off")
+    if (m, c) != LAYOUT_NOT_RR:
+        try:
+            parsed, _ = parse_text(text)
+        except ParseError as e:
+            return problems + ["PARTIAL: text does not parse: %s" % e]
+        sub = []
+        tree = attach_struct_names(st, built.tree)
+        compare_struct(tree, st.name, parsed, prep["orders"], "", sub, [], partial=True)
+        if parsed[0] == "struct":
+            check_intended_order(st, [n for n, _ in parsed[1]], sub, st.name)
+            if parsed[1]:
+                stats["partial_texts_with_fields"] = stats.get("partial_texts_with_fields", 0) + 1
+        D.check_text(prep["dep_table"], D.find_struct(prep["dep_table"], st.name), parsed, "", sub)
+        problems += ["PARTIAL: " + p for p in sub]
+    if "UNREADABLE" in text:
+        stats["partial_texts_with_unreadable_comment"] = stats.get("partial_texts_with_unreadable_comment", 0) + 1
+    return problems
+
+
 def judge(prep, st, built, opt, line, stats, int_checks, tok_texts, wvals=None):
     """Evaluates one driver answer against the property statement.
     Returns (problems, parsed tree or None, kv)."""
@@ -525,6 +657,8 @@ def judge(prep, st, built, opt, line, stats, int_checks, tok_texts, wvals=None):
         stats.setdefault("intended_value_mismatch_examples", [])
         if len(stats["intended_value_mismatch_examples"]) < 3:
             stats["intended_value_mismatch_examples"].append({"struct": st.name, "diff": bad[:4]})
+    if kv.get("pa") == "0":
+        problems.append("allow_partial_output changes the text of an Ok view")
     parsed = None
     if rr:
         # 1. the text parses and has the expected shape / order / values
@@ -537,6 +671,8 @@ def judge(prep, st, built, opt, line, stats, int_checks, tok_texts, wvals=None):
             compare_struct(tree, st.name, parsed, prep["orders"], "", problems, int_checks)
             if parsed[0] == "struct":
                 check_intended_order(st, [n for n, _ in parsed[1]], problems, st.name)
+            # the same clause judged from the parsed source of the module (every struct level)
+            D.check_text(prep["dep_table"], D.find_struct(prep["dep_table"], st.name), parsed, "", problems, stats)
             tok_texts.append(text)
         # read-only virtual fields are comments: present iff comments are on
         for n, node in built.tree:
@@ -547,7 +683,7 @@ def judge(prep, st, built, opt, line, stats, int_checks, tok_texts, wvals=None):
                         n, "missing" if c else "present", c))
         # 2. round trip
         problems.extend(judge_roundtrip(kv, built, d1, d2))
-    if wvals is not None and ((not rr and FINDING_ANON_KEY not in built.flags) or (parsed is not None and not problems)):
+    if wvals is not None and (not rr or (parsed is not None and not problems)):
         try:
             tree = ("struct", attach_struct_names(st, built.tree), st.name)
             toks = wval_tokens(tree, parsed, prep["orders"])
@@ -566,6 +702,7 @@ def run_modules(chk, mods, buffers_per_struct, r, model_ok, tier, compiler="clan
     """mods: [(Module, origin tag, None | {struct name: [Built]})].  Compiles all drivers in
     parallel, runs, judges."""
     stats = chk.extra.setdefault("txt_distribution", {})
+    cc_opt = opt          # `opt` is re-used for option sets below
     scratch = os.path.join(common.scratch(), "c06txt")
     os.makedirs(scratch, exist_ok=True)
     jobs, preps = [], []
@@ -589,8 +726,25 @@ def run_modules(chk, mods, buffers_per_struct, r, model_ok, tier, compiler="clan
     run_items, metas = [], []
     for (mod, origin, prep, tops, fixed), (binary, log) in zip(preps, built_bins):
         if binary is None:
-            raise common.InfraError("driver for module %s does not compile:\n%s\n%s" % (
-                mod.name, log[-3000:], prep["text"]))
+            # Does the generated header compile at all?  If it does, it is the text output / input
+            # of an accepted module that does not compile: the property cannot hold for that module
+            # (a concrete failing input: the module).  Otherwise: C07's business / infrastructure.
+            hname = "%s.emb.h" % mod.name
+            probe, plog = cppbuild.compile_one(cppbuild.CHECK_PRELUDE + '#include "%s"\nint main() { return 0; }\n' % hname,
+                                               name="c06_probe_" + mod.name, extra=["-I" + scratch],
+                                               compiler=compiler, opt=cc_opt, defines=tuple(defines))
+            if probe is None:
+                raise common.InfraError("driver for module %s does not compile (nor does the bare header):\n%s\n%s" % (
+                    mod.name, log[-3000:], prep["text"]))
+            errs = [ln for ln in log.split("\n") if "error" in ln][:6]
+            chk.violation("input", {
+                "part": "TXT", "origin": origin, "emb": prep["text"], "kind_of_failure": "text-io-does-not-compile",
+                "observed": ["the generated header compiles, WriteToString / UpdateFromText / field access of its "
+                             "structs does not"] + errs,
+                "compiler_log_tail": log[-3000:],
+                "expected": "for every accepted module WriteToString and UpdateFromText of every struct compile and "
+                            "round-trip"})
+            continue
         lines, meta = [], []
         for st in tops:
             if fixed is not None:
@@ -600,41 +754,79 @@ def run_modules(chk, mods, buffers_per_struct, r, model_ok, tier, compiler="clan
             for built in builts:
                 for opt in opts:
                     lines.append("%s %d %d %d %d %s" % ((st.name,) + opt + (bytes(built.buf).hex() or "-",)))
-                    meta.append((st, built, opt))
+                    meta.append((st, built, opt, None))
+                # allow_partial_output on views that are not Ok: the same bytes, truncated
+                n = len(built.buf)
+                for k in sorted({n - 1, n - 2, n // 2, 1, 0}):
+                    if 0 <= k < n:
+                        for opt in PARTIAL_OPTS:
+                            lines.append("%s %d %d %d %d %s" % ((st.name,) + opt + (bytes(built.buf[:k]).hex() or "-",)))
+                            meta.append((st, built, opt, k))
         run_items.append((binary, "\n".join(lines) + "\n"))
         metas.append((mod, origin, prep, meta, lines))
     results = run_many_long(run_items, workers=6)
     int_checks, tok_texts, wvals, rvals = [], [], [], []
+    srts, srt_seen = [], set()
     shapes = {}
     second = []      # per module: [(meta index, line)] to run with a comma-repaired text
     for mi, ((mod, origin, prep, meta, lines), res) in enumerate(zip(metas, results)):
         stats["modules"] = stats.get("modules", 0) + 1
         second.append([])
         if res.kind != "ok":
-            bad = None
-            for ln in lines:
-                one = cppbuild.run(run_items[mi][0], ln + "\n")
-                if one.kind != "ok":
-                    bad = (ln, one)
-                    break
-            rec = {"emb": prep["text"], "op": bad[0] if bad else None, "part": "TXT", "origin": origin,
-                   "observed": "%s: %s" % (res.kind, (bad[1].err if bad else res.err)[-2000:]),
-                   "expected": "no sanitizer report / failed CHECK in text output or input"}
-            rec.update(line_fields(bad[0] if bad else None))
-            chk.violation("input", rec)
-            continue
-        out = res.out.split("\n")[:-1]
-        if len(out) != len(lines):
-            raise common.InfraError("TXT driver answered %d lines for %d ops" % (len(out), len(lines)))
+            out, crashes = isolate_crashes(run_items[mi][0], lines, res)
+            for bad, one in crashes:
+                rec = {"emb": prep["text"], "op": bad, "part": "TXT", "origin": origin,
+                       "observed": ["%s: %s" % (one.kind, one.err[-2000:])],
+                       "expected": "no sanitizer report / failed CHECK in text output or input"}
+                rec.update(line_fields(bad))
+                if bad in lines:
+                    st_bad = meta[lines.index(bad)][0]
+                    rec["text"], order_problems = crash_text_order(one, prep["dep_table"], st_bad)
+                    rec["observed"] += order_problems
+                    rec["predicate_skip_locates_emitted"] = G.skip_locates_emitted(st_bad)
+                chk.violation("input", rec)
+            stats["cases_not_judged_after_crash"] = stats.get("cases_not_judged_after_crash", 0) + \
+                sum(1 for a in out if a is None)
+        else:
+            out = res.out.split("\n")[:-1]
+            if len(out) != len(lines):
+                raise common.InfraError("TXT driver answered %d lines for %d ops" % (len(out), len(lines)))
         reported = set()
-        for ci, ((st, built, opt), ln, ans) in enumerate(zip(meta, lines, out)):
+        for ci, ((st, built, opt, trunc), ln, ans) in enumerate(zip(meta, lines, out)):
+            if ans is None:
+                continue
             chk.count()
+            if trunc is not None:
+                pp = judge_partial(prep, st, built, opt, trunc, ans, stats)
+                if pp:
+                    sig = (st.name, "partial", pp[0][:40])
+                    if sig not in reported:
+                        reported.add(sig)
+                        kvp = dict(x.split("=", 1) for x in ans.split(" ") if "=" in x)
+                        chk.violation("input", {
+                            "part": "TXT", "origin": origin, "emb": prep["text"], "struct": st.name,
+                            "buffer": bytes(built.buf[:trunc]).hex(), "truncated_from": bytes(built.buf).hex(),
+                            "options": dict(zip(("multiline", "comments", "base", "grouping"), opt)),
+                            "allow_partial_output": True, "text": I.unhex(kvp.get("ptext", "")), "observed": pp[:6],
+                            "expected": "with allow_partial_output the text of a view that is not Ok holds only "
+                                        "readable fields, with their values, in dependency order"})
+                continue
             problems, parsed, kv = judge(prep, st, built, opt, ans, stats, int_checks, tok_texts,
                                          wvals if model_ok else None)
             if problems is None:
                 continue
             if model_ok and (opt[0], opt[1]) != LAYOUT_NOT_RR and "text" in kv:
                 add_rval(rvals, shapes, stats, st, kv)
+            if model_ok and (opt[0], opt[1]) == (0, 0) and "buf2" in kv and id(built) not in srt_seen:
+                srt_seen.add(id(built))
+                try:
+                    srts.append((S.srt_op(st, mod.default_order, prep["orders"], built), kv.get("upd") == "1",
+                                 kv["buf2"], st, prep, opt, I.unhex(kv["text"])))
+                except S.NoSrt as e:
+                    stats["srt_skipped"] = stats.get("srt_skipped", 0) + 1
+                    stats.setdefault("srt_skipped_why", {})
+                    why = str(e).split(" ")[0]
+                    stats["srt_skipped_why"][why] = stats["srt_skipped_why"].get(why, 0) + 1
             for ftag in struct_features(st):
                 stats["feature_" + ftag] = stats.get("feature_" + ftag, 0) + 1
             stats["options_m%d_c%d" % opt[:2]] = stats.get("options_m%d_c%d" % opt[:2], 0) + 1
@@ -642,10 +834,10 @@ def run_modules(chk, mods, buffers_per_struct, r, model_ok, tier, compiler="clan
             if not problems:
                 continue
             report(chk, stats, reported, mod, origin, prep, st, built, opt, kv, problems, parsed, second[mi], ci, ln)
-        if len(chk.cov["samples"]) < 5 and out:
+        if len(chk.cov["samples"]) < 5 and out and out[0]:
             kv = dict(x.split("=", 1) for x in out[0].split(" ") if "=" in x)
             if "text" in kv:
-                chk.sample({"struct": meta[0][0].name, "options": meta[0][2], "buffer": lines[0].split(" ")[-1],
+                chk.sample({"struct": meta[0][0].name, "options": meta[0][2], "buffer": lines[0].split(" ")[5],
                             "text": I.unhex(kv["text"])[:400]})
     # second pass: multi-line texts hit by the known array finding are re-read with commas added,
     # so that the rest of the round trip is still judged
@@ -660,7 +852,7 @@ def run_modules(chk, mods, buffers_per_struct, r, model_ok, tier, compiler="clan
         out = res.out.split("\n")[:-1]
         reported = set()
         for (ci, ln), ans in zip(second[mi], out):
-            st, built, opt = meta[ci]
+            st, built, opt, _trunc = meta[ci]
             chk.count()
             stats["second_pass_with_commas"] = stats.get("second_pass_with_commas", 0) + 1
             kv = dict(x.split("=", 1) for x in ans.split(" ") if "=" in x)
@@ -747,23 +939,35 @@ def run_modules(chk, mods, buffers_per_struct, r, model_ok, tier, compiler="clan
                         "theorem_or_correspondence": "model_c06 RVAL vs UpdateFromText"}, found_input=False)
         chk.extra["txt_model_reader_ops"] = chk.extra.get("txt_model_reader_ops", 0) + len(rops)
         chk.extra["txt_model_reader_disagreements"] = chk.extra.get("txt_model_reader_disagreements", 0) + rdis
+        # the abstract structure round trip (update zeroBuf ∘ writeText on leaf descriptions) vs the
+        # bytes the real UpdateFromText left in its zeroed buffer
+        sans = common.Model("model_c06").ask([x[0] for x in srts]) if srts else []
+        sdis = 0
+        for (op, upd, buf2, st, prep, opt, text), a in zip(srts, sans):
+            skipf = G.skip_locates_emitted(st)
+            stats["srt_ops"] = stats.get("srt_ops", 0) + 1
+            if skipf:
+                stats["srt_ops_on_skip_finding_structs"] = stats.get("srt_ops_on_skip_finding_structs", 0) + 1
+            if a == "fail":
+                stats["srt_model_predicts_failure"] = stats.get("srt_model_predicts_failure", 0) + 1
+            want = ("ok " + (buf2 or "-")) if upd else "fail"
+            if a != want:
+                sdis += 1
+                if sdis <= 3:
+                    chk.violation("correspondence", {
+                        "op": op[:4000], "struct": st.name, "emb": prep["text"], "text": text,
+                        "options": dict(zip(("multiline", "comments", "base", "grouping"), opt)),
+                        "buffer": op.split(" ")[1], "observed": want, "model": a,
+                        "expected": "the abstract structure round trip (Lean update/writeText on the leaf "
+                                    "description) predicts the bytes after the real round trip",
+                        "predicate_skip_locates_emitted": skipf,
+                        "theorem_or_correspondence": "model_c06 SRT vs UpdateFromText(WriteToString)"},
+                        found_input=False)
+        chk.extra["txt_model_struct_roundtrip_ops"] = chk.extra.get("txt_model_struct_roundtrip_ops", 0) + len(srts)
+        chk.extra["txt_model_struct_roundtrip_disagreements"] = \
+            chk.extra.get("txt_model_struct_roundtrip_disagreements", 0) + sdis
         chk.extra["txt_model_ops"] = chk.extra.get("txt_model_ops", 0) + len(ops)
         chk.extra["txt_model_disagreements"] = chk.extra.get("txt_model_disagreements", 0) + dis
-
-
-def anon_skip_only(problems, built):
-    """Every problem is "unexpected names" at some struct level, the unexpected names all being
-    anonymous-bits subfields marked Skip, nothing missing."""
-    import ast
-    import re
-    for p in problems:
-        m = re.search(r"\(missing (\[.*?\]), unexpected (\[.*?\])\)$", p)
-        if not m:
-            return False
-        missing, extra = ast.literal_eval(m.group(1)), ast.literal_eval(m.group(2))
-        if missing or not extra or not set(extra) <= built.anon_skip_names:
-            return False
-    return True
 
 
 def add_rval(rvals, shapes, stats, st, kv):
@@ -790,12 +994,8 @@ def report(chk, stats, reported, mod, origin, prep, st, built, opt, kv, problems
     text = I.unhex(kv.get("text", ""))
     keys, unexplained = [], []
     for p in problems:
-        if FINDING_ANON_KEY in built.flags and anon_skip_only([p], built):
-            k = FINDING_ANON_KEY
-        elif p.startswith("RT:") and skip_pred:
+        if p.startswith("RT:") and skip_pred:
             k = FINDING_SKIP_KEY
-        elif p.startswith("RT:") and FINDING_ENUM_KEY in built.flags:
-            k = FINDING_ENUM_KEY
         elif (p.startswith("RT:") and second is not None and opt[0] == 1 and kv.get("upd") != "1"
               and has_long_array(parsed)):
             k = FINDING_ARRAY_KEY
@@ -806,7 +1006,7 @@ def report(chk, stats, reported, mod, origin, prep, st, built, opt, kv, problems
             keys.append(k)
     if unexplained:
         keys = [None]
-    elif FINDING_ARRAY_KEY in keys and FINDING_SKIP_KEY not in keys and FINDING_ENUM_KEY not in keys:
+    elif FINDING_ARRAY_KEY in keys and FINDING_SKIP_KEY not in keys:
         second.append((ci, ln + " " + I.hexs(add_commas(text))))
     for key in keys:
         if key is not None:
@@ -826,7 +1026,18 @@ def report(chk, stats, reported, mod, origin, prep, st, built, opt, kv, problems
 
 def struct_features(st):
     out = set()
+    pos = {f.name: i for i, f in enumerate(st.fields)}
+    by = G.field_by_name(st)
     for f in st.fields:
+        layout_deps = ([f.cond[0]] if f.cond else []) + ([f.dyn_count] if f.dyn_count else []) + \
+            ([f.dyn_offset] if f.dyn_offset else [])
+        for d in layout_deps:
+            if d in by and by[d].virtual:
+                out.add("layout_through_virtual")
+                if any(pos.get(s, -1) > pos[f.name] for s in G.physical_sources(st, d)):
+                    out.add("layout_through_virtual_input_declared_later")
+            elif pos.get(d, -1) > pos[f.name]:
+                out.add("layout_input_declared_later")
         if f.cond:
             out.add("conditional")
         if f.attr:
@@ -835,6 +1046,10 @@ def struct_features(st):
             out.add("dynamic_array")
         if f.dyn_offset:
             out.add("dynamic_offset")
+        if f.args:
+            out.add("member_with_runtime_parameters")
+            if any(isinstance(a, str) and a in by and by[a].virtual for a in f.args):
+                out.add("runtime_parameter_through_virtual")
         if f.anonymous_bits is not None:
             out.add("anonymous_bits")
         if f.virtual:
@@ -860,7 +1075,8 @@ def fixed_built(buf, mask, dump, emitted, tree):
 
 
 def pinned_enum():
-    """findings.d/C06.json: negative value of a signed enum inside a wider bits container."""
+    """findings.d/C06.json (fixed, f572d62): negative value of a signed enum in a full-width field
+    inside a wider bits container; used to be refused by UpdateFromText."""
     e = G.EnumT("Ee", 16, True, [("NEG", -5), ("POS", 7)])
     u8, en = _u8(), G.Scalar("enum", 16, e)
     bt = G.StructT("FooAnon", "bits", [G.Field("a", ("scalar", u8), 0, 8), G.Field("e", ("scalar", en), 8, 16),
@@ -870,8 +1086,7 @@ def pinned_enum():
     mod = G.Module("pinenum", [e], [st], "LittleEndian")
     built = fixed_built(b"\x01\xfb\xff\x02", "EEEE", [("a", "1"), ("e", "-5"), ("b", "2")], {"a", "e", "b"},
                         [("a", ("scalar", u8, 1)), ("e", ("scalar", en, -5)), ("b", ("scalar", u8, 2))])
-    built.flags.add(FINDING_ENUM_KEY)
-    return mod, "pinned:" + FINDING_ENUM_KEY, {"Foo": [built]}
+    return mod, "pinned:fixed:" + FIXED_ENUM_KEY, {"Foo": [built]}
 
 
 def pinned_f1():
@@ -899,7 +1114,7 @@ def pinned_f13():
 
 
 def pinned_anon_skip():
-    """findings.d/C06.json: Skip on a field inside an anonymous `bits` is ignored."""
+    """findings.d/C06.json (fixed, b3c9cb3): Skip on a field inside an anonymous `bits` used to be ignored."""
     u4 = G.Scalar("uint", 4)
     lo = G.Field("lo", ("scalar", u4), 0, 4, attr="Skip")
     hi = G.Field("hi", ("scalar", u4), 4, 4)
@@ -910,9 +1125,7 @@ def pinned_anon_skip():
     mod = G.Module("pinanon", [], [st], "LittleEndian")
     built = fixed_built(b"\xa5\x07", "UE", [("lo", "5"), ("hi", "10"), ("z", "7")], {"hi", "z"},
                         [("hi", ("scalar", u4, 10)), ("z", ("scalar", _u8(), 7))])
-    built.flags.add(FINDING_ANON_KEY)
-    built.anon_skip_names.add("lo")
-    return mod, "pinned:" + FINDING_ANON_KEY, {"Foo": [built]}
+    return mod, "pinned:fixed:" + FIXED_ANON_KEY, {"Foo": [built]}
 
 
 def pinned_array():
